@@ -275,8 +275,14 @@ Definition mk_idx_pkg (opc raw : N) (choices : list N) (add : value) (size mx : 
 
 (* IndexedOperand.translate (indirect = false) and the general path of
    ExtendedIndexedOperand.translate (indirect = true) *)
+(* INDEX_REGISTER_REGEX ^(-{0,2}[XYUS]|[XYUS]\+{0,2}|PCR)$ (repair F37) *)
+Definition valid_index_reg (r : text) : bool :=
+  existsb (text_eqb r)
+    ([80; 67; 82] :: flat_map (fun c => [[c]; [45; c]; [45; 45; c]; [c; 43]; [c; 43; 43]]) [88; 89; 85; 83]).
+
 Definition translate_indexed (indirect : bool) (l : side) (r : text) (i : irow) : res codepkg :=
   opt_op (Tables.ind i) (fun opc =>
+  if negb (valid_index_reg r) then OTE else
   let sz := Tables.ind_sz i in
   let ib := if indirect then 16 else 0 in              (* the indirect bit *)
   let raw0 := N.lor (if indirect then 128 else 0) (reg_bits r) in
